@@ -35,7 +35,10 @@ RULE = ('objects: (a) assembler / c3c / cc output for x86_64, arm, riscv, xtensa
 EXPLANATION = ('Proved in Coq about the hand model of the writer: an independent gABI reader accepts the bytes and '
                'recovers sections (name, size, contents, address, alignment), symbols (name, binding, type, section '
                'index, value, locals first, sh_info), RELA entries (offset, symbol index, type, addend) and, for '
-               'executables, the image bytes at every virtual address of every PT_LOAD segment. Only validated: '
+               'executables, the image bytes at every virtual address of every PT_LOAD segment (layers + bounded family); '
+               'unbounded for every object: the offset bookkeeping of export_object (c17_file_layout: section and image '
+               'byte ranges of the final file hold the section/image bytes; reader corollaries for contents, address, '
+               'alignment, name index and segment bytes incl. p_offset/p_vaddr congruence). Only validated: '
                'that the model equals the real writer (byte-for-byte differential test on every run) and that '
                'third-party tools (readelf; pyelftools is not installed) read the same facts (search oracle). '
                'Not modelled: ET_DYN output (.dynamic section, DT_NEEDED, PT_DYNAMIC), create_hash_table (dead '
@@ -148,6 +151,36 @@ def export_tables():
               ('stt_func', H.SymbolTableType.FUNC), ('pt_load', H.ProgramHeaderType.LOAD)]
     for n, v in consts:
         out.append('Definition %s : Z := %d.' % (n, int(v)))
+    # absolute symbols (defined, no section): KeyError before fixes/C17-absolute-symbols.diff, SHN_ABS after
+    ao = ObjectFile(get_arch('x86_64'))
+    ao.add_symbol(0, 'a', 'global', 77, None, 'object', 0)
+    f = io.BytesIO()
+    try:
+        W.write_elf(ao, f, type='relocatable')
+        b = f.getvalue()
+        shoff = int.from_bytes(b[40:48], 'little')
+        symoff = int.from_bytes(b[shoff + 64 + 24:shoff + 64 + 32], 'little')     # section 1 = .symtab
+        shndx = int.from_bytes(b[symoff + 24 + 6:symoff + 24 + 8], 'little')
+        val = int.from_bytes(b[symoff + 24 + 8:symoff + 24 + 16], 'little')
+        assert val == 77, val
+        out.append('Definition abs_symbol_shndx : option Z := Some %d.' % shndx)
+    except KeyError:
+        out.append('Definition abs_symbol_shndx : option Z := None.')
+    # PT_LOAD congruence: is p_offset % page == p_vaddr % page for an image at a non page-aligned address?
+    from ppci.binutils.objectfile import Section, Image
+    co = ObjectFile(get_arch('x86_64'))
+    cs = Section('code')
+    cs.address = 0x40010
+    cs.add_data(bytes([1, 2, 3]))
+    co.add_section(cs)
+    ci = Image('code', 0x40010)
+    ci.add_section(cs)
+    co.add_image(ci)
+    f = io.BytesIO()
+    W.write_elf(co, f, type='executable')
+    p_offset = int.from_bytes(f.getvalue()[64 + 8:64 + 16], 'little')
+    out.append('Definition segments_congruent : bool := %s.' % ('true' if p_offset % page_size == 0x10 else 'false'))
+    assert p_offset % page_size in (0, 0x10), p_offset
     from ppci.arch.x86_64 import elf as X
     out.append('Definition x86_64_reloc_map : list (string * Z) := [%s].'
                % '; '.join('("%s", %d)' % (k, v) for k, v in X.elf_reloc_mapping.items()))
@@ -309,6 +342,8 @@ def gen_object(rng, malformed=False, archname=None, want_exec=None):
         if names and rng.random() < 0.75:
             sec = rng.choice(names)
             value = rng.choice([0, 1, 4, 8, 13, 40])
+        elif rng.random() < 0.15:
+            sec, value = None, rng.choice([0, 77, 0x20000000])     # absolute symbol
         else:
             sec, value = None, None
         if malformed and rng.random() < 0.2:
@@ -633,7 +668,9 @@ def well_formed(obj, typ):
     for y in obj.symbols:
         if not isinstance(y.name, str) or '\x00' in y.name or not y.name.isascii() or len(y.name) > 40:
             return False
-        if y.value is not None and (y.section not in names or y.value < 0):
+        if y.value is not None and y.section is not None and (y.section not in names or y.value < 0):
+            return False
+        if y.value is not None and y.section is None and y.value < 0:
             return False
         if y.value is None and y.section is not None:
             return False
@@ -709,12 +746,16 @@ def oracle_check(obj, typ, data):
 
         def view(y):
             sec = None
-            if y['ndx'] not in ('UND', 'ABS', 'COM'):
+            if y['ndx'] == 'ABS':
+                sec = 'ABS'
+            elif y['ndx'] not in ('UND', 'COM'):
                 sec = secs.get(int(y['ndx']), {}).get('name')
             return (y['name'], y['bind'], y['type'], sec, y['value'], y['size'])
 
         def expected(y):
-            if y.value is not None:
+            if y.value is not None and y.section is None:
+                v, sec = y.value, 'ABS'
+            elif y.value is not None:
                 v = y.value + obj.get_section(y.section).address
                 sec = y.section
             else:
@@ -764,6 +805,9 @@ def oracle_check(obj, typ, data):
         else:
             for seg, im in zip(loads, obj.images):
                 d = bytes(im.data)
+                if seg['off'] % 0x1000 != seg['vaddr'] % 0x1000:
+                    bad.append('PT_LOAD congruence: image %s p_offset 0x%x, p_vaddr 0x%x (mod 0x1000)'
+                               % (im.name, seg['off'], seg['vaddr']))
                 if (seg['vaddr'], seg['filesz'], seg['memsz']) != (im.address, len(d), len(d)):
                     bad.append('segment for image %s: vaddr/filesz/memsz %r' % (im.name, (seg['vaddr'], seg['filesz'], seg['memsz'])))
                 elif bytes(data[seg['off']:seg['off'] + seg['filesz']]) != d:
@@ -804,6 +848,8 @@ def classify_failure(obj, typ, exc):
     """known failure classes of the writer on well-formed objects"""
     if isinstance(exc, NotImplementedError) and obj.relocations and typ == 'relocatable':
         return 'reloc-type-not-implemented'
+    if isinstance(exc, KeyError) and any(y.value is not None and y.section is None for y in obj.symbols):
+        return 'absolute-symbol-KeyError'
     return 'write_elf-raises-' + type(exc).__name__
 
 
@@ -838,6 +884,14 @@ def search(ctx, deep=None):
             continue
         n_files += 1
         complaints = oracle_check(o, t, r.v)
+        other = [c for c in complaints if not c.startswith('PT_LOAD congruence')]
+        if complaints and not other:
+            ctx.violation({'fn': 'write_elf', 'key': 'pt-load-offset-not-congruent', 'object': obj_summary(o, t),
+                           'label': lab, 'actual': complaints[:2],
+                           'expected': 'p_offset % p_align == p_vaddr % p_align for every PT_LOAD (gABI)',
+                           'how_to_replay': REPLAY_HOWTO})
+            continue
+        complaints = other
         if complaints:
             key = 'big-endian-fields-native-order' if o.arch.name == 'microblaze' and not big_endian_ok() \
                 else 'readback:' + re.sub(r'[^a-z_ -]', '', complaints[0].split(':')[0].lower())[:40]
@@ -864,6 +918,7 @@ def witnesses(ctx):
             ctx.violation({'fn': 'write_elf', 'key': 'big-endian-fields-native-order', 'object': obj_summary(o, 'relocatable'),
                            'actual': c[:2], 'expected': 'EI_DATA=2 and big-endian header fields',
                            'how_to_replay': REPLAY_HOWTO})
+    witness_congruence(ctx)
     # K2: relocatable file with a relocation on a machine without get_reloc_type
     o = mk_obj('arm')
     s = o.create_section('code')
@@ -885,6 +940,44 @@ def witnesses(ctx):
         ctx.violation({'fn': 'write_elf', 'key': 'absolute-symbol-' + type(exc).__name__,
                        'object': obj_summary(o, 'executable'), 'actual': repr(exc)[:200],
                        'expected': 'a symbol with st_shndx = SHN_ABS and st_value = 77', 'how_to_replay': REPLAY_HOWTO})
+
+
+def witness_congruence(ctx):
+    """K4: image at a non page-aligned address; also executed on a Linux x86_64 host when possible"""
+    from ppci.binutils.objectfile import Section, Image
+    o = mk_obj('x86_64')
+    s = Section('code')
+    s.address = 0x40010
+    # mov rax, 60 ; mov rdi, 42 ; syscall
+    s.add_data(bytes.fromhex('48c7c03c000000' '48c7c72a000000' '0f05'))
+    o.add_section(s)
+    im = Image('code', 0x40010)
+    im.add_section(s)
+    o.add_image(im)
+    o.add_symbol(0, 'main', 'global', 0, 'code', 'func', 0)
+    o.entry_symbol_id = 0
+    r, exc = real_write(o, 'executable')
+    if not isinstance(r, OkV):
+        return
+    c = [x for x in oracle_check(o, 'executable', r.v) if x.startswith('PT_LOAD congruence')]
+    ran = None
+    try:
+        import platform
+        if platform.system() == 'Linux' and platform.machine() == 'x86_64':
+            with tempfile.NamedTemporaryFile(suffix='.elf', delete=False) as f:
+                f.write(r.v)
+            os.chmod(f.name, 0o755)
+            try:
+                ran = subprocess.run([f.name], timeout=10).returncode
+            finally:
+                os.unlink(f.name)
+    except Exception:   # noqa: BLE001
+        ran = None
+    ctx.cov['stages']['congruence_witness'] = {'congruent': not c, 'exit_status_on_linux_loader': ran}
+    if c:
+        ctx.violation({'fn': 'write_elf', 'key': 'pt-load-offset-not-congruent', 'object': obj_summary(o, 'executable'),
+                       'actual': c + ['exit status on this Linux loader: %r (42 expected)' % ran],
+                       'expected': 'p_offset % 0x1000 == p_vaddr % 0x1000', 'how_to_replay': REPLAY_HOWTO})
 
 
 def replay(rec):
@@ -926,7 +1019,7 @@ def run(ctx):
     logging.disable(logging.CRITICAL)
     _imports()
     regen(ctx)
-    ok, _ = ctx.build(['Proofs/C17_codec.vo', 'Proofs/C17_recover.vo', 'Proofs/C17_bounded.vo'])
+    ok, _ = ctx.build(['Proofs/C17_codec.vo', 'Proofs/C17_recover.vo', 'Proofs/C17_bounded.vo', 'Proofs/C17_file.vo'])
     if ok:
         ctx.check_props('Props/C17.v')
     if ctx.build(['Model/ElfWriter.vo', 'Proofs/C17_recover.vo', 'Lib/Val.vo'])[0]:
@@ -949,12 +1042,17 @@ MANIFEST = {
             'Only validated, not proved: model bytes = real ppci.format.elf.write_elf bytes (byte-for-byte differential test '
             'on asm/c3c/cc objects for x86_64, arm, riscv, xtensa, microblaze, linked executables and generated ObjectFile '
             'instances incl. malformed ones) and that binutils readelf and ppci\'s own ElfFile.load read the same facts '
-            '(search oracle). Missing: the unbounded proof of the offset bookkeeping of export_object.',
+            '(search oracle). Proved for every object (c17_file_layout + corollaries): every section and image byte range recorded '
+            'by the writer lies in the final file and holds the section / Image.data bytes, with size, address, alignment, name '
+            'index, PT_LOAD vaddr/filesz and (after the congruence fix) p_offset = p_vaddr mod page size. Still missing for an '
+            'unbounded full-reader theorem: that the header tables and the string table sit at e_shoff/e_phoff/.strtab and '
+            'the symbol/RELA table contents (covered by layer theorems + the bounded family only).',
     'note': 'not modelled: ET_DYN (.dynamic/PT_DYNAMIC/DT_NEEDED), create_hash_table (dead code), DWARF (never emitted). '
             'Defects: big-endian (microblaze) files announce ELFDATA2MSB but pack every field in native order '
             '(fixes/C17-header-endianness.diff; Coq refutation c17_native_order_bigendian_refuted); relocatable files '
             'with relocations cannot be written for arm/riscv/xtensa/microblaze (get_reloc_type NotImplementedError); '
-            'absolute symbols (link extra_symbols) raise KeyError. Trusted: Coq kernel, hand model + differential test, '
+            'absolute symbols (link extra_symbols) raise KeyError (fixes/C17-absolute-symbols.diff); PT_LOAD p_offset not congruent '
+            'to p_vaddr for non page-aligned images, Linux loader SIGSEGV (fixes/C17-segment-congruence.diff). Trusted: Coq kernel, hand model + differential test, '
             'table exporter, BytesIO/struct semantics, the gABI reading in ElfSpec.v, readelf.',
     'technique': 'Coq layer proofs + bounded whole-file vm_compute + per-run Coq reader validation + readelf differential',
 }
